@@ -96,4 +96,40 @@ THEOREM IncludesComplete ==
               BY <1>3 DEF WellFormed, In, Unb
         <2> QED BY <2>1
   <1> QED BY <1>1, <1>2, <1>3 DEF IncludesCF
+(* scale: the closed form satisfies the recursion of the k-fold sum, ScaleCF(r, 0) = {0} and                  *)
+(* ScaleCF(r, k + 1) = ScaleCF(r, k) + r (as ranges: AddCF); with AddSound / AddComplete this gives, by         *)
+(* induction on k outside the logic, that ScaleCF(r, k) denotes exactly the k-fold sums of members of r.        *)
+ScaleCF(r, k) == IF k = 0 THEN <<0, 0>> ELSE <<r[1] * k, IF Unb(r) THEN -1 ELSE r[2] * k>>
+Canonical(r)  == WellFormed(r) /\ (Unb(r) => r[2] = -1) /\ r = <<r[1], r[2]>>
+
+THEOREM ScaleZero == ASSUME NEW r PROVE \A n \in Nat : In(ScaleCF(r, 0), n) <=> n = 0
+  BY DEF ScaleCF, In, Unb
+
+THEOREM ScaleStep ==
+  ASSUME NEW r, Canonical(r), NEW k \in Nat
+  PROVE  ScaleCF(r, k + 1) = AddCF(ScaleCF(r, k), r)
+  <1>1. CASE k = 0
+        BY <1>1 DEF ScaleCF, AddCF, Unb, Canonical, WellFormed
+  <1>2. CASE k # 0
+        <2>1. r[1] * (k + 1) = r[1] * k + r[1]
+              BY DEF Canonical, WellFormed
+        <2>2. ~Unb(r) => r[2] * (k + 1) = r[2] * k + r[2]
+              BY DEF Canonical, WellFormed, Unb
+        <2>3. ~Unb(r) => r[2] * k >= 0
+              BY <1>2 DEF Canonical, WellFormed, Unb
+        <2> QED BY <1>2, <2>1, <2>2, <2>3 DEF ScaleCF, AddCF, Unb, Canonical, WellFormed
+  <1> QED BY <1>1, <1>2
+
+THEOREM ScaleWellFormed ==
+  ASSUME NEW r, Canonical(r), NEW k \in Nat
+  PROVE  WellFormed(ScaleCF(r, k))
+  <1>1. CASE k = 0
+        BY <1>1 DEF ScaleCF, WellFormed, Unb
+  <1>2. CASE k # 0
+        <2>1. r[1] * k \in Nat
+              BY DEF Canonical, WellFormed
+        <2>2. ~Unb(r) => (r[2] * k \in Int /\ r[1] * k <= r[2] * k /\ r[2] * k >= 0)
+              BY <1>2 DEF Canonical, WellFormed, Unb
+        <2> QED BY <1>2, <2>1, <2>2 DEF ScaleCF, WellFormed, Unb
+  <1> QED BY <1>1, <1>2
 =============================================================================
